@@ -194,6 +194,12 @@ def sa_table(t, metadata=None):
 # ------------------------------------------------------------------------------- observation
 
 def observe_table(conn, name, universe=()):
+    with warnings.catch_warnings():
+        warnings.simplefilter("ignore")
+        return _observe_table(conn, name, universe)
+
+
+def _observe_table(conn, name, universe=()):
     insp = sa.inspect(conn)
     insp.clear_cache()
     if not insp.has_table(name):
@@ -210,14 +216,22 @@ def observe_table(conn, name, universe=()):
                      "pk": bool(c.get("primary_key"))})
     pkc = insp.get_pk_constraint(name)
     pk = {"name": pkc.get("name"), "cols": list(pkc["constrained_columns"])} if pkc and pkc.get("constrained_columns") else None
-    uniques = sorted(({"name": u.get("name"), "cols": list(u["column_names"])} for u in insp.get_unique_constraints(name)),
+    # UNIQUE constraints are read from the stored CREATE TABLE text: the inspector collapses two UNIQUE
+    # constraints over the same column set into one (SQLite keeps a single automatic index for them)
+    sql = conn.exec_driver_sql("SELECT sql FROM sqlite_master WHERE type='table' AND name=?", (name,)).scalar() or ""
+    uniques = sorted(({"name": (m.group(1) or "").strip('"') or None,
+                       "cols": [c.strip().strip('"') for c in m.group(2).split(",")]}
+                      for m in re.finditer(r"(?:CONSTRAINT (\S+) )?UNIQUE \(([^)]*)\)", sql)),
                      key=lambda u: (u["name"] or "", u["cols"]))
     names = set(universe) | {c["name"] for c in cols}
     checks = sorted(({"name": k.get("name"), "text": k["sqltext"], "mentions": mentions_of(k["sqltext"], names),
                       "pred": parse_pred(k["sqltext"])} for k in insp.get_check_constraints(name)),
                     key=lambda k: (k["name"] or "", k["text"]))
-    fks = sorted(({"name": f.get("name"), "cols": list(f["constrained_columns"]), "rtable": f["referred_table"],
-                   "rcols": list(f["referred_columns"])} for f in insp.get_foreign_keys(name)),
+    # same for FOREIGN KEY constraints (the inspector collapses identical ones)
+    fks = sorted(({"name": (m.group(1) or "").strip('"') or None,
+                   "cols": [c.strip().strip('"') for c in m.group(2).split(",")], "rtable": m.group(3).strip('"'),
+                   "rcols": [c.strip().strip('"') for c in m.group(4).split(",")]}
+                  for m in re.finditer(r"(?:CONSTRAINT (\S+) )?FOREIGN KEY\s*\(([^)]*)\) REFERENCES (\S+) \(([^)]*)\)", sql)),
                  key=lambda f: (f["name"] or "", f["cols"]))
     indexes = sorted(({"name": i["name"], "cols": list(i["column_names"]), "unique": bool(i["unique"])}
                       for i in insp.get_indexes(name)), key=lambda i: i["name"])
@@ -252,14 +266,18 @@ def abstract_stmt(sql, tname):
     if m:
         cols = [c.strip() for c in m.group(1).split(",")]
         exprs = []
-        for e in re.split(r",\s*(?![^()]*\))", m.group(2)):
+
+        def ex(e):
             e = e.strip()
-            mc = re.match(r"CAST\(%s\.(\S+) AS (.+)\) AS (\S+)$" % qt, e)
+            mc = re.match(r"CAST\((.+) AS ([^()]+(?:\([^()]*\))?)\)$", e)
             if mc:
-                exprs.append("cast:%s:%s" % (mc.group(2), mc.group(1)))
-            else:
-                me = re.match(r"%s\.(\S+)$" % qt, e)
-                exprs.append(me.group(1) if me else "?" + e)
+                return "cast:%s:%s" % (mc.group(2), ex(mc.group(1)))
+            me = re.match(r"%s\.(\S+)$" % qt, e)
+            return me.group(1) if me else "?" + e
+
+        for e in re.split(r",\s*(?![^()]*\))", m.group(2)):
+            e = re.sub(r"\) AS \S+$", ")", e.strip())
+            exprs.append(ex(e))
         return "insert:%s<-%s" % (",".join(cols), ",".join(exprs))
     if re.match(r"INSERT INTO %s " % qtmp, s):
         return "insert:?" + s
@@ -357,6 +375,10 @@ def exc_kind(e):
             return "duplicateColumn"
         if "Cannot add a NOT NULL" in msg:
             return "addNotNull"
+        if "no such index" in msg:
+            return "noSuchIndexDb"
+        if "no such table" in msg:
+            return "noSuchTable"
         return "operational:" + msg.splitlines()[0][:80]
     if n == "KeyError":
         return "keyError"
